@@ -619,6 +619,13 @@ func init() {
 				m.blockedOnOther(c)
 				m.ex.Fail("deadlock:RLock of an RWMutex write-held by the same goroutine (" + ls.name + ") in " + m.where())
 			}
+			if ls.readers > 0 {
+				// recursive read locking: sync.RWMutex forbids it - as soon as a writer is waiting between the
+				// two acquisitions the second RLock queues behind the writer and the goroutine never returns
+				if _, byOther := m.preHeld[c]; !(m.inPreempt && byOther) {
+					m.ex.Fail("deadlock:recursive RLock of an RWMutex already read-held by the same goroutine (" + ls.name + "): blocks forever once a writer waits, in " + m.where())
+				}
+			}
 			ls.readers++
 			m.acquired(c, ls, false)
 			return nil
